@@ -124,6 +124,26 @@ class C05(Check):
                     if not res["ok"]:
                         out.fail("C05.accept", "read %d: model says valid (injections %s) but the call raised %s: %s" % (i, labels, type(res["exc"]).__name__, str(res["exc"])[:400]),
                                  "rejected:%s:%s" % (type(res["exc"]).__name__, ",".join(sorted(l.split(":")[0] + ":" + l.split(":")[-1] for l in labels))[:80]))
+            # history: the same process then meets the original, valid workspace in the same directories (when the injections
+            # did not move directories): nothing of the rejected definitions may be remembered
+            uni0 = Universe(scn["ws"])
+            if [r0["dir"] for r0 in uni0.roots] == [r0["dir"] for r0 in uni.roots]:
+                import os, shutil
+                for r0 in uni.roots:
+                    shutil.rmtree(w.abs(r0["dir"]), ignore_errors=True)
+                    os.makedirs(w.abs(r0["dir"]), exist_ok=True)
+                from ..model.render import render
+                for k0, d0 in uni0.defs.items():
+                    w.write(uni0.file_of(k0), render(d0, None)[0])
+                for ri in range(len(uni0.roots)):
+                    op = W.rn_op(rng, uni0, ri, [x for x in range(len(uni0.roots)) if x != ri], allow_unreg=scn["allow_unreg"])
+                    res = w.run_read(op)
+                    out.stats["recovery_reads"] += 1
+                    if not res["ok"]:
+                        out.fail("C05.accept", "recovery: after reading the mutated workspace (%s) the same process rejects the original valid one: %s: %s" % (labels, type(res["exc"]).__name__, str(res["exc"])[:300]),
+                                 "recovery:" + type(res["exc"]).__name__)
+                    elif [str(t) for t in res["direct"]] != uni0.keys_of_root(ri):
+                        out.fail("C05.accept", "recovery: the original valid workspace reads as %s, model %s" % ([str(t) for t in res["direct"]], uni0.keys_of_root(ri)), "recovery-differs")
             out.nontrivial = bool(labels)
             out.shape = digest([sorted(labels), sorted(verdicts)])
             for l in labels:
